@@ -25,6 +25,8 @@ type Facts struct {
 
 	addrTaken map[*ssa.Function]bool
 
+	debugFuncs map[*ssa.Function]string
+
 	MayLoad  map[*ssa.Function]bool // may reach Persist.Load
 	MayStore map[*ssa.Function]bool // may reach Persist.Store
 	MayFail  map[*ssa.Function]bool // some return carries a possibly non-nil error
@@ -393,3 +395,57 @@ func fmtChain(chain []string) string {
 }
 
 var _ = fmt.Sprintf
+
+// debugOnlyFunc: fn (or the function it is nested in) can only run from code guarded by Mast.debug, a private
+// field that no non-test code ever sets: every call site is in a block dominated by `debug == true`, or in another
+// such function. Returns the reason, or "".
+func (F *Facts) debugOnlyFunc(fn *ssa.Function) string {
+	if F.debugFuncs == nil {
+		F.debugFuncs = map[*ssa.Function]string{}
+		P := F.P
+		// is the field ever written?
+		written := false
+		for _, g := range P.Funcs {
+			for _, b := range g.Blocks {
+				for _, ins := range b.Instrs {
+					if _, f, _, ok := mastFieldStore(ins); ok && f == "debug" {
+						written = true
+					}
+				}
+			}
+		}
+		if !written {
+			for changed := true; changed; {
+				changed = false
+				for _, g := range P.Funcs {
+					if g.Parent() != nil || F.debugFuncs[g] != "" || F.addrTaken[g] {
+						continue
+					}
+					if g.Object() == nil || g.Object().Exported() {
+						continue
+					}
+					callers := P.Callers[g]
+					if len(callers) == 0 {
+						continue
+					}
+					all := true
+					for _, cs := range callers {
+						outer := ir.Outermost(cs.Parent())
+						if outer == g {
+							continue // recursion
+						}
+						if debugOnly(cs.Block()) || ir.PanicOnly(cs.Block()) || F.debugFuncs[outer] != "" {
+							continue
+						}
+						all = false
+					}
+					if all {
+						F.debugFuncs[g] = "diagnostic output: reachable only under Mast.debug (never set outside the package's tests) or on the way to an assertion panic"
+						changed = true
+					}
+				}
+			}
+		}
+	}
+	return F.debugFuncs[ir.Outermost(fn)]
+}
